@@ -117,7 +117,7 @@ def run(ctx: core.Ctx, prop: str):
     if getattr(ctx, "deep", False):
         per, nv = per * 2, nv + 2
     # the variant families that matter most for the property are always generated, the others are sampled
-    priority = {"C01": ("ctx_", "exploded", "no_final_newline", "crlf", "comment_above", "trailing_comments"),
+    priority = {"C01": ("ctx_", "own_block", "comment_above"),
                 "C02": ("second_use", "twin_import", "aliased_twin", "in_def", "in_class"),
                 "C07": ("nested_call", "twin_import", "ctx_tuple")}[prop]
     jobs = corpus_jobs(prop) + e2e.build_jobs(rng, per_codemod=per, variants_per_seed=nv, priority=priority)
